@@ -210,6 +210,18 @@ func (d *Derived) writeInst(o *Out) {
 		}
 	}
 	total := d.nStops + len(d.altCopy)
+	// an earliness (lateness) term exists when some stop or listed alternate has a target and a non-zero
+	// early (late) penalty, and the factor is positive
+	earlyTerm, lateTerm := false, false
+	for i := 0; i < total; i++ {
+		s, _ := d.stopOf(i)
+		if s.Target != nil && s.Early != nil && *s.Early != 0 && c.Opt.Factors["early_arrival_penalty"] > 0 {
+			earlyTerm = true
+		}
+		if s.Target != nil && s.Late != nil && *s.Late != 0 && c.Opt.Factors["late_arrival_penalty"] > 0 {
+			lateTerm = true
+		}
+	}
 	for i := 0; i < total; i++ {
 		s, isAlt := d.stopOf(i)
 		mIdx := i
@@ -247,15 +259,22 @@ func (d *Derived) writeInst(o *Out) {
 			}
 			mix = strings.Join(ms, ";")
 		}
+		// target / early / late as the factory wires them: one target-time expression shared by the
+		// earliness and the lateness objective; earliness factor defaults to 0, lateness factor to 1
 		target := "-"
 		early, late := 0, 0
-		if s.Target != nil {
+		setByEarly := earlyTerm && s.Target != nil && s.Early != nil && *s.Early != 0
+		setByLate := lateTerm && s.Target != nil && s.Late != nil && *s.Late != 0
+		if setByEarly || setByLate {
 			target = strconv.FormatInt(*s.Target, 10)
-			if s.Early != nil {
+			if setByEarly {
 				early = *s.Early
 			}
-			if s.Late != nil {
-				late = *s.Late
+			if lateTerm {
+				late = 1
+				if setByLate {
+					late = *s.Late
+				}
 			}
 		}
 		pen := 1000000
